@@ -49,7 +49,7 @@ def dec_path(s):
 
 
 VARIANTS = {"bin": (False, 0), "wat-text": (False, 1), "garbage": (False, 2), "wit-text": (False, 3),
-            "wit-pkg-dir": (True, 5), "plain-dir": (True, 6)}
+            "wit-pkg-dir": (True, 5), "plain-dir": (True, 6), "wit-pkg-dir-vendoring-a-dependency": (True, 7)}
 VNAME = {(d, v): n for n, (d, v) in VARIANTS.items()}
 
 
@@ -71,6 +71,15 @@ def mk_case(name, version, nodes, overrides=(), mode=1, wat=1, root="deps"):
 
 def pretty(case):
     f = case.split("\t")
+    if len(f) == 7 and f[0] == "c18m":
+        nodes = []
+        for e in (f[5].split("|") if f[5] else []):
+            kind, k, v, p = e.split(":", 3)
+            nodes.append("%s = %s (content %d)" % (dec_path(p), VNAME.get((kind == "D", int(v)), v), 10 * int(k) + int(v)))
+        keys = [dec(e.split("~")[0]) + ("@" + dec(e.split("~")[1]) if e.split("~")[1] != "none" else "") for e in f[6].split("|") if e]
+        return dict(keys_in_one_call=keys, wat_feature=f[1] == "1", error_on_unknown=f[2] == "1", deps_dir=dec_path(f[3]),
+                    overrides={dec(e.split("=")[0]): dec_path(e.split("=")[1]) for e in (f[4].split("|") if f[4] else [])},
+                    layout=sorted(nodes))
     if len(f) != 8:
         return case
     nodes = []
@@ -235,8 +244,23 @@ def run(res, tier, seed, replay):
     known_hits = {}         # entry id -> [cases]
     nontriv = set()
     outcomes = {}
+    n_multi = 0
     for c, i, m in zip(cases, impl, model):
         mf = m.split("\t")
+        if c.startswith("c18m\t"):
+            # several keys in one call: <model of the call (resolve_all)> \t <per-key table answers composed> \t <wf>
+            n_multi += 1
+            if len(mf) != 3 or mf[2] != "1":
+                disagreements.append((c, i, m)); continue
+            head = " ".join(i.split(" ")[:3]) if i.startswith("MULTI ERR") else " ".join(i.split(" ")[:2])
+            outcomes[head] = outcomes.get(head, 0) + 1
+            if i != mf[1]:
+                prop_fail.append((c, i, m, "several keys in one resolve call: the answer differs from the documented "
+                                  "per-key answers (each key must be resolved as if it were requested alone, the first "
+                                  "failing key ends the call)"))
+            if i != mf[0]:
+                disagreements.append((c, i, m))
+            continue
         if len(mf) < 4 or mf[3] != "1":
             disagreements.append((c, i, m)); continue
         m_obs, s_obs, dev = mf[0], mf[1], mf[2]
@@ -301,7 +325,8 @@ def run(res, tier, seed, replay):
             "two feature builds are exercised (wit+wat, wit); a build without `wit` is not modelled"]))
     res.assumptions = ["keys are single name/version pairs; name parts and version text are plain non-empty path components",
                        "version.to_string() equals the canonical text the key was built from (asserted by the harness)",
-                       "one key per resolve call (the loop over keys is not modelled)"]
+                       "multi-key calls: %d of this run's cases resolve 1-3 keys (pairwise different package names) in ONE call "
+                       "over a merged layout (model resolve_all)" % n_multi]
     prop_fail.sort(key=lambda t: "deviation situation" in t[3])   # plain table failures first
     for c, i, m, why in prop_fail[:5]:
         res.violation(dict(kind="property-fails-on-implementation", what=why, case=c, pretty=pretty(c),
